@@ -124,7 +124,8 @@ var propInfo = map[string]struct {
 		"Row mode, proved on the real code. (1) An alias is a pure abbreviation: FieldReferenceExpr.Execute returns, for every pair, cache content and cache switch, exactly the outcome and value of its defining expression on that pair. (2) The row cache is invisible: the cache is *coherent* with a pair when every entry holds the value of its alias on that pair; evaluating any expression requires and preserves coherence (interface contract of Expression.Execute, active under this property), SetFieldResult / GetFieldResult / Clear are proved against the map semantics, and every row-mode scan (full, prefix, range, multi-get) is proved to establish coherence for each pair before it filters it - which failed on the pinned tree (D5, repaired) - and to hand the returned pair over with a cache coherent with exactly that pair; LimitPlan passes this on. (3) ProjectionPlan.Next returns one column per field, in order, column k being the value of field k on the pair the child produced - whether it came out of the cache or was evaluated - and `select *` returns the stored key and value.",
 		[]string{
 			"aggregation is covered at the level of the cache discipline: AggregatePlan.prepare / prepareBatch are proved to hand getAggrKey, createAggrRow and updateRowAggrFunc a context whose per-row cache is coherent with the pair being processed (D23 repaired: the cache is cleared per pair), and the accumulators' Update to require and preserve coherence; the vector forms that fall back to row evaluation run without the shared row cache (D22 repaired)",
-			"NOT covered: the per-chunk caches of batch mode (FieldReferenceExpr.ExecuteBatch, Get/SetChunkFieldResult, AdjustChunkCache; D8, D21 repaired), aliases in ORDER BY, and the statement-level rewriting that replaces names by references",
+			"per-chunk caches: the typestate that pins D21 is proved - AdjustChunkCache (body verified) and with it every scan batch leave no per-chunk entry behind, and the aggregate's batch key computation requires that; A-CHUNKCACHE (within one scan batch the filtered chunks have distinct first keys, so an entry found under (alias, first key) holds the alias's values on the current chunk) is still an assumption, as are the lengths of the final-result columns that the batch projection reads",
+			"NOT covered: ProjectionPlan.Batch / processProjectionBatch, LimitPlan.Batch's part of the typestate, aliases in ORDER BY, and the statement-level rewriting that replaces names by references",
 			"A-ALIAS: every alias reference points at the select field of its name, field names of a statement are distinct (aliasOf is the function from names to select fields); the checker's rewriting is proved to create references only from names (C14) but the link to aliasOf is assumed",
 			"A-EVAL: the outcome of evaluating an expression on a pair is a function of the expression and the pair (evalok / evalv); ev_ref is the documented meaning of a reference",
 			"ProjectionPlan.Next requires a non-nil execution context (it calls ctx.Clear() unconditionally)",
@@ -139,7 +140,7 @@ var propInfo = map[string]struct {
 	"C09": {"proof",
 		"The accumulators count, sum, avg, min and max are proved to be left folds in scan order: Update is exactly one fold step on convertToNumber of the argument's value for the pair (state unchanged when the argument fails to evaluate), Complete reads the documented result out of the state (integer sum unless a float was seen; avg = sum / count as floats; min / max by the integer or float reading), Clone yields the initial state in a fresh object. convertToNumber is evaluated in place (pure). The group key of a row is the length-prefixed encoding of its rendered group-by values, which distinct value tuples cannot share (defect D16, repaired).",
 		[]string{
-			"group keys are covered (getAggrKey and its batch twin batchGetAggrKeys return gkN = the length-prefixed encoding of the rendered group-by values, proved injective for 1, 2 and 3 group-by columns by lemmas gk_inj1..3 / group_sound1..3 over the cat-cancellation axiom); the grouping loops prepare / prepareBatch are under contract for the cache discipline (C05) and error surfacing (C13) only; NOT yet covered: which row a pair is dispatched to (one row per distinct key, first-seen order), createAggrRow / updateRowAggrFunc bodies (thin assumed contracts), next / batch rendering, group_concat, json_arrayagg and quantile",
+			"group keys are covered (getAggrKey and its batch twin batchGetAggrKeys return gkN = the length-prefixed encoding of the rendered group-by values, proved injective for 1, 2 and 3 group-by columns by lemmas gk_inj1..3 / group_sound1..3 over the cat-cancellation axiom); the grouping loops prepare / prepareBatch are under contract: cache discipline (C05), error surfacing (C13) and dispatch (at the end of every iteration the updated row is the group map's entry for the pair's key, and a row created in the iteration is the last of aggrRows); NOT yet covered: the global statement (one row per distinct key over the whole scan, aggregates over exactly the group's pairs: on paper from dispatch + the accumulator folds), createAggrRow / updateRowAggrFunc bodies (thin assumed contracts), next / batch rendering, group_concat, json_arrayagg and quantile",
 			"axiom cat_cancel (cat(a, b) = cat(a, c) implies b = c, and equal-length prefixes of equal concatenations are equal) and be32 injective below 2^32 are assumed of byte strings; a rendered value longer than 4 GiB is outside the model",
 			"A-EVAL: the value of the aggregate's argument is evalv of the interface contract of Expression.Execute",
 			"floats are uninterpreted (fadd / fdiv / flt): the fold order is the code's, no IEEE fact is used; int64 is mathematical (A-INT)",
